@@ -652,6 +652,57 @@ def w_F19a():
     return not (l0 & l2), "frames [1,2],[empty],[1,2] -> labels %s and %s share %s" % (sorted(l0), sorted(l2), sorted(l0 & l2))
 
 
+# ----------------------------------------------------------------------------- consequences of F-10b in C08 / C09
+def _w_F10b_stale(which):
+    """F-10b (enable_features(['track_id']) in mid-session renumbers the ids but keeps the undo history) leaves,
+    after an undo, three unconnected nodes 5@t1, 1@t0 -> 2@t3 with the same track id. A stroke that starts a new
+    node in that track at t2 over half of node 4 then raises ValueError (the edge (5, 2) that UserAddNode wants
+    to replace does not exist) AFTER node 4's mask update was applied, and nothing is rolled back: the caller
+    restores the array, but area(4) and iou(3, 4) stay those of the half mask."""
+    from funtracks.user_actions import UserDeleteNode, UserUpdateSegmentation
+
+    seg = np.zeros((4, 5, 5), dtype=np.int64)
+    seg[1, 4, 4] = 5
+    seg[0, 0, 0:2] = 1
+    seg[3, 0, 0:2] = 2
+    seg[1, 2, 0:4] = 3
+    seg[2, 2, 0:4] = 4
+    t = _sol({5: 1, 1: 0, 2: 3, 3: 1, 4: 2}, [(1, 2), (3, 4)], seg=seg)
+    t.enable_features(["iou"])
+    UserDeleteNode(t, 5)
+    t.enable_features(["track_id"])
+    t.undo()
+    ids = {n: t.get_track_id(n) for n in (5, 1, 2)}
+    if len(set(ids.values())) != 1:
+        return True, "ids after recompute + undo: %s (F-10b did not reproduce: nothing to report)" % ids
+    arr = t.segmentation
+    px = (np.array([2, 2, 2, 2]), np.array([2, 2, 3, 3]), np.array([2, 3, 2, 3]))   # two pixels of node 4, two of background
+    old = arr[px].copy()
+    g1 = (tuple(a[:2] for a in px), 4)
+    g2 = (tuple(a[2:] for a in px), 0)
+    arr[px] = 9
+    try:
+        UserUpdateSegmentation(t, 9, [g1, g2], current_track_id=ids[5], force=True)
+        return True, "stroke accepted"
+    except Exception as e:  # noqa: BLE001
+        arr[px] = old
+        err = type(e).__name__
+    cnt = int((np.asarray(t.segmentation)[2] == 4).sum())
+    if which == "area":
+        got = t.get_node_attr(4, "area")
+        return float(got) == float(cnt), "stroke refused (%s); node 4 has %d pixels again, stored area %s" % (err, cnt, got)
+    got = t.graph.edges[3, 4].get("iou")
+    return abs(float(got) - 1.0) < 1e-12, "stroke refused (%s); masks of 3 and 4 coincide again (IoU 1), stored iou %s" % (err, got)
+
+
+def w_F10b_stale_area():
+    return _w_F10b_stale("area")
+
+
+def w_F10b_stale_iou():
+    return _w_F10b_stale("iou")
+
+
 WITNESSES = {
     # finding id: (property ids, function)
     "F-03a-backward": (["C03"], w_F03a_backward),
@@ -667,6 +718,8 @@ WITNESSES = {
     "F-07b-no-pixels": (["C07"], w_F07b_no_pixels),
     "F-07b-wrong-frame": (["C07"], w_F07b_wrong_frame),
     "F-09a": (["C09"], w_F09a),
+    "F-10b-stale-area": (["C08"], w_F10b_stale_area),
+    "F-10b-stale-iou": (["C09"], w_F10b_stale_iou),
     "F-11a": (["C11"], w_F11a),
     "F-11b": (["C11"], w_F11b),
     "F-11d-add": (["C11"], w_F11d_add),
